@@ -16,7 +16,7 @@ import warnings
 
 import numpy as np
 
-from .. import cases, facts, gmctlgen, unictlgen, utilsgen
+from .. import cases, facts, gmctlgen, unictlgen, uniwrapgen, utilsgen
 from .. import lifecycle as L
 from ..core import REPO
 
@@ -1236,6 +1236,9 @@ def _run(ctx):
     ctx.compile(['Gen_gmctl.v', 'C19_gm.v'])
     from .. import bivlifegen
     bivlifegen.hook(ctx)     # Gen_bivlife.v + Props/C14_biv.v (check_fit first on every bivariate query: C14_bridge_query)
+    # third tie (tools/vf/uniwrapgen.py): the family hooks, GaussianKDE's own methods and the selecting Univariate wrapper, generated into
+    # Gen_uniwrap.v and proved equal to Model.Lifecycle in Props/C19_uni2.v (C19_bridge2_*); fail-closed, and never stops what follows
+    uniwrapgen.hook(ctx, statusu)
     ctx.rule('correspondence: random histories (3..8 events: fit 42% / query 40% (cdf,pdf,ppf,logpdf,sample[,partial]) / to_dict 11% / '
              'get_instance 7%) per object configuration: 8 ScipyModel families (default, seeded; TruncatedGaussian without/with one/both '
              'bounds; GaussianKDE with sample_size 1/5/8/30, bw_method scott/silverman/scalar/invalid, weights), Univariate wrapper '
